@@ -217,6 +217,15 @@ let describe_matrix_by_key (what : string) (key1 : int -> string) (key2 : int ->
   | ((a, b), v, g) :: _ as l ->
       Printf.sprintf " [%s: %d cell(s) differ, e.g. (%s, %s): the inputs add up to %d, the merged result has %d]" what (List.length l) a b v g
 
+(* big cases go through extracted list functions that are not tail recursive: run with a large stack *)
+let () =
+  if Sys.getenv_opt "VERIF_DRIVER_STACK" = None then begin
+    Unix.putenv "VERIF_DRIVER_STACK" "1";
+    (try Unix.execv "/bin/sh" (Array.append [| "sh"; "-c"; "ulimit -s 4000000 2>/dev/null || ulimit -s unlimited 2>/dev/null; exec \"$0\" \"$@\""; Sys.executable_name |]
+                                 (Array.sub Sys.argv 1 (Array.length Sys.argv - 1)))
+     with _ -> ())
+  end
+
 let () =
   iter_cases (fun id c ->
     let an = atom (List.hd (args (field "an" c))) in
